@@ -314,6 +314,13 @@ def _run_case(case):
                         for v, t in sorted(ev["io"].items()):
                             spec.set_var_io_type(v, t)
                         spec.parse()
+                elif a == "reparse":
+                    # another text (and further sub-specifications) on the same object, parsed again
+                    spec = specs[oi]
+                    for s_ in ev.get("subs", []):
+                        spec.add_sub_spec(s_)
+                    spec.spec = ev["text"]
+                    spec.parse()
                 elif a == "explain":
                     spec = specs[oi]
                     ev["rep"] = {v: [] for v in o["vars"]}
